@@ -40,3 +40,11 @@ package main
 //@   ensures[C16.crolt_update_drops_old_time_entry] result == nil && oldTid != "" ==> dels == old(dels) + 1
 //@ func (*Cron).delete$1
 //@   ensures[C16.crolt_delete_removes_both_or_none] result == nil ==> dels == old(dels) + 2 || dels == old(dels)
+
+// Add refuses an id under which ANY job record is stored (one id, one record, one time-index entry).
+//@ ghost lastGot []byte
+//@ extern (*github.com/boltdb/bolt.Bucket).Get
+//@   ghost-ensures lastGot == result
+//@   also-modifies lastGot
+//@ func (*Cron).Add$1
+//@   ensures[C16.crolt_add_sees_any_stored_record] result == nil && len(lastGot) > 0 ==> exists
